@@ -72,12 +72,26 @@ func startWatchdog(id string, cpuLimit float64, memLimit int64) (stop func()) {
 func busyFrame() string {
 	buf := make([]byte, 1<<20)
 	st := string(buf[:runtime.Stack(buf, true)])
+	var frames []string
 	for _, l := range strings.Split(st, "\n") {
 		if m := funcLine.FindStringSubmatch(l); m != nil {
-			return strings.TrimPrefix(m[1], "github.com/DDP-Projekt/Kompilierer/")
+			f := strings.TrimPrefix(m[1], "github.com/DDP-Projekt/Kompilierer/")
+			dup := false
+			for _, g := range frames {
+				dup = dup || g == f
+			}
+			if !dup {
+				frames = append(frames, f)
+			}
+			if len(frames) >= 4 {
+				break
+			}
 		}
 	}
-	return "?"
+	if len(frames) == 0 {
+		return "?"
+	}
+	return strings.Join(frames, "<")
 }
 
 // ---------------------------------------------------------------- diagnostics
